@@ -103,6 +103,30 @@ func firstDiffLine(a, b string) string {
 	return ""
 }
 
+// canonDiff: the first difference of two bundleCanon renderings; inside the lookups field the first lookup
+// whose answers differ, both answers shown
+func canonDiff(want, got string) string {
+	wl, gl := strings.Split(want, " "), strings.Split(got, " ")
+	for i := range wl {
+		if i >= len(gl) || wl[i] == gl[i] {
+			continue
+		}
+		if strings.HasPrefix(wl[i], "lookups=") && strings.HasPrefix(gl[i], "lookups=") {
+			wk, gk := strings.Split(strings.TrimPrefix(wl[i], "lookups="), ";"), strings.Split(strings.TrimPrefix(gl[i], "lookups="), ";")
+			for k := range wk {
+				if k >= len(gk) {
+					return "lookup missing: " + wk[k]
+				}
+				if wk[k] != gk[k] {
+					return fmt.Sprintf("lookup %s (bundle returned by Close) / %s (this bundle)", wk[k], gk[k])
+				}
+			}
+		}
+		return "before: " + wl[i] + " / after: " + gl[i]
+	}
+	return firstDiffLine(strings.ReplaceAll(want, " ", "\n"), strings.ReplaceAll(got, " ", "\n"))
+}
+
 // treeDiffLine: firstDiffLine of two tree listings, with the other side's line for the same path next to it
 func treeDiffLine(before, after string) string {
 	d := firstDiffLine(before, after)
@@ -132,7 +156,7 @@ func treeDiffLine(before, after string) string {
 
 func init() {
 	lanes["bundle-roundtrip"] = func(cfg *Config, rep *Report) {
-		rep.Rule = "error-free scripted worlds (as in the builder lane; package trees with an empty directory, 0755/0600 files, an in-package relative link, a non-ASCII name, and - for half of the contents - a rule file re-including .terraform); the finished bundle is (a) opened again with OpenDir, (b) written with WriteArchive and extracted with ExtractArchive into another directory; compared: all accessors, ChecksumV1, every lookup relative to the root, recursive tree listing (modes included); with -umask the re-opening, archiving and extraction run under that umask (the world is built under 022); non-trivial = has a registry package or metadata; distinct by (world, ops)"
+		rep.Rule = "error-free scripted worlds (as in the builder lane; package trees with an empty directory, 0755/0600 files, an in-package relative link, a non-ASCII name, and - for half of the contents - a rule file re-including .terraform); the finished bundle is (a) opened again with OpenDir, (b) written with WriteArchive and extracted with ExtractArchive into another directory; the directory is also re-opened - and, for every other world, the archive extracted - under a name that goes through a symbolic link (<work>/rtl<N> -> '.'), lookups taken relative to the root that was passed, paths spelled under that root translated to addresses and back; compared: all accessors, ChecksumV1, every lookup relative to the root, recursive tree listing (modes included); with -umask the re-opening, archiving and extraction run under that umask (the world is built under 022); non-trivial = has a registry package or metadata; distinct by (world, ops)"
 		r := NewRng(cfg.Seed)
 		richContent = true
 		defer func() { richContent = false }()
@@ -182,6 +206,26 @@ func init() {
 				fail("re-opened bundle differs from the one Close returned: " + firstDiffLine(strings.ReplaceAll(want, " ", "\n"), strings.ReplaceAll(got, " ", "\n")))
 			}
 			rep.Count("reopened")
+			// (a') re-open under a name that goes through a symbolic link (<work>/rtl<N> -> ".", inside the
+			// scratch directory): lookups relative to the root that was passed are those of Close's bundle, and
+			// paths spelled under the passed root translate to addresses and back (seed C09-g: OpenDir keeping
+			// the resolved name of its directory)
+			lnk := filepath.Join(cfg.Work, fmt.Sprintf("rtl%05d", done))
+			os.Remove(lnk)
+			viaLink := os.Symlink(".", lnk) == nil
+			defer os.Remove(lnk)
+			if viaLink {
+				ltarget := filepath.Join(lnk, filepath.Base(target))
+				if b2, err := sourcebundle.OpenDir(ltarget); err != nil {
+					fail(fmt.Sprintf("a finished bundle directory cannot be opened under the name %s (%s is a symbolic link to '.'): %v", ltarget, lnk, err))
+				} else {
+					if got := bundleCanon(b2, ltarget, w, ops); got != want {
+						fail(fmt.Sprintf("the bundle re-opened under the name %s (%s is a symbolic link to '.', so this is the directory %s) differs from the one Close returned, lookups taken relative to the root each was given: %s", ltarget, lnk, target, canonDiff(want, got)))
+					}
+					spelledUnderRoot(rep, c, run.bundle, target, b2, ltarget, w)
+				}
+				rep.Count("reopened-through-link")
+			}
 			// (b) archive + extract
 			var buf bytes.Buffer
 			if err := run.bundle.WriteArchive(&buf); err != nil {
@@ -204,6 +248,27 @@ func init() {
 				rep.Count("archived")
 				chmodAll(other)
 				os.RemoveAll(other)
+				// (b') every other world: extracted once more into a directory named through the link
+				if viaLink && done%2 == 1 {
+					otherL := filepath.Join(lnk, fmt.Sprintf("rxl%05d", done))
+					os.MkdirAll(otherL, 0755)
+					os.Chmod(otherL, 0755)
+					b4, err := sourcebundle.ExtractArchive(bytes.NewReader(buf.Bytes()), otherL)
+					if err != nil {
+						fail(fmt.Sprintf("ExtractArchive of the bundle's own archive into %s (%s is a symbolic link to '.') fails: %v", otherL, lnk, err))
+					} else {
+						if got := bundleCanon(b4, otherL, w, ops); got != want {
+							fail(fmt.Sprintf("the bundle extracted into %s (%s is a symbolic link to '.') differs from the original, lookups taken relative to the root each was given: %s", otherL, lnk, canonDiff(want, got)))
+						}
+						if gotTree := treeListing(filepath.Join(cfg.Work, filepath.Base(otherL))); gotTree != wantTree {
+							fail("files of the bundle extracted through a symbolic link differ: " + treeDiffLine(wantTree, gotTree))
+						}
+						spelledUnderRoot(rep, c, run.bundle, target, b4, otherL, w)
+					}
+					rep.Count("archived-through-link")
+					chmodAll(filepath.Join(cfg.Work, filepath.Base(otherL)))
+					os.RemoveAll(filepath.Join(cfg.Work, filepath.Base(otherL)))
+				}
 			}
 			chmodAll(target)
 			os.RemoveAll(target)
@@ -232,6 +297,39 @@ func init() {
 		for tries := 0; done < cfg.N && tries < cfg.N*10; tries++ {
 			w, ops := genBWorld(r, false)
 			runWorld(w, ops)
+		}
+	}
+}
+
+// spelledUnderRoot: b was opened (or extracted) under the directory name root; for every lookup the bundle
+// Close returned (orig, under origRoot) answers, the same path spelled under root belongs to b, translates
+// to the address orig gives and back to itself (C18: lookups invert each other; C09: same answers)
+func spelledUnderRoot(rep *Report, c *rtCase, orig *sourcebundle.Bundle, origRoot string, b *sourcebundle.Bundle, root string, w *BWorld) {
+	for _, p := range w.Pkgs {
+		for _, sub := range bSubPool {
+			olp, err := orig.LocalPathForRemoteSource(w.remote(p.Addr, sub))
+			if err != nil {
+				continue
+			}
+			rel, err := filepath.Rel(origRoot, olp)
+			if err != nil || strings.HasPrefix(rel, "..") {
+				continue
+			}
+			osrc, oerr := orig.SourceForLocalPath(olp)
+			lp := filepath.Join(root, rel)
+			src, err := b.SourceForLocalPath(lp)
+			if err != nil {
+				rep.AddOracle(OracleFailure{Property: "C18", Lane: "bundle-roundtrip", What: fmt.Sprintf("path %s lies in a package directory of the bundle that was opened as %s, but is reported as not belonging to it: %v", lp, root, err), Input: c})
+				return
+			}
+			if oerr == nil && src.String() != osrc.String() {
+				rep.AddOracle(OracleFailure{Property: "C09", Lane: "bundle-roundtrip", What: fmt.Sprintf("SourceForLocalPath(<root>/%s) = %s in the bundle opened as %s, %s in the bundle Close returned", rel, src, root, osrc), Input: c})
+				return
+			}
+			if back, err := b.LocalPathForSource(src); err != nil || back != lp {
+				rep.AddOracle(OracleFailure{Property: "C18", Lane: "bundle-roundtrip", What: fmt.Sprintf("translating %s (inside the bundle opened as %s) to an address (%s) and back gives %q (err %v)", lp, root, src, back, err), Input: c})
+				return
+			}
 		}
 	}
 }
